@@ -43,6 +43,69 @@ type Case struct {
 	RpsNested bool `json:"rps_as_composite_plugin,omitempty"`
 	// Startup: how the instances are started; nil = all at once (`once`).
 	Startup *Startup `json:"startup,omitempty"`
+	// DiscardOverflow: the pool option `discard_overflow` (docs/eng/best_practices/discard-overflow.md): an instance that is
+	// 2 s or more behind the schedule when it takes a token does not shoot; the acquired ammo goes back to the provider unused.
+	DiscardOverflow bool `json:"discard_overflow,omitempty"`
+	// Behind: the rps schedule was started in the past (core.Schedule.Start with an earlier time), so its leading tokens are
+	// overdue from the first moment on, as they are for instances that are slower than the schedule - without any real waiting.
+	Behind *Behind `json:"rps_started_in_the_past,omitempty"`
+}
+
+// Behind describes a shared rps schedule that starts Ms milliseconds before the run: Lead are its sections that lie in the
+// past, padded with a pause up to Ms; the sections of Case.Rps (or the single `once`) follow and begin when the run begins.
+type Behind struct {
+	Ms   int       `json:"started_ms_before_the_run"`
+	Lead []Section `json:"overdue_sections"` // once | const (Tokens 0 = a pause); they last no more than Ms together
+}
+
+// overdueMs is the time an instance may be behind the schedule before discard_overflow drops the shot (coreutil.MaxOverdueDuration).
+const overdueMs = 2000
+
+func (b *Behind) leadMs() int {
+	d := 0
+	for _, s := range b.Lead {
+		d += s.DurMs
+	}
+	return d
+}
+
+func (b *Behind) leadTokens() int { return finiteTokens(b.Lead) }
+
+// certain: lead tokens that are due 2 s or more before the run begins; an instance can only meet them that much behind.
+func (b *Behind) certain() int {
+	n, at := 0, 0
+	for _, s := range b.Lead {
+		at += s.DurMs
+		if b.Ms-at >= overdueMs {
+			n += s.Tokens
+		}
+	}
+	return n
+}
+
+// sections: the whole schedule as configured.
+func (b *Behind) sections(rest []Section) []Section {
+	out := append([]Section(nil), b.Lead...)
+	if pad := b.Ms - b.leadMs(); pad > 0 {
+		out = append(out, Section{Type: "const", DurMs: pad})
+	}
+	return append(out, rest...)
+}
+
+// certainDiscards: shots the pool has to discard for certain (more may be discarded on a stalled machine).
+func (c Case) certainDiscards() int {
+	if c.Behind == nil || !c.DiscardOverflow {
+		return 0
+	}
+	return c.Behind.certain()
+}
+
+// rest: the ammo left for the sections that begin with the run.
+func (c Case) rest() int {
+	if c.Behind == nil {
+		return c.Shots
+	}
+	return c.Shots - c.Behind.leadTokens()
 }
 
 // Section is one part of a composite schedule.
@@ -266,7 +329,9 @@ func (c Case) sharedObjects() []string {
 // scheduleClasses names the schedule objects of the pool (the rps schedule is shared by all instances).
 func (c Case) scheduleClasses() []string {
 	var out []string
-	if len(c.Rps) == 0 {
+	if len(c.Rps) == 0 && c.Behind != nil {
+		out = append(out, "rps_overdue_sections_then_once")
+	} else if len(c.Rps) == 0 {
 		out = append(out, "rps_single_once")
 	} else {
 		out = append(out, "rps_composite", fmt.Sprintf("rps_composite_%d_sections", len(c.Rps)))
@@ -299,7 +364,87 @@ func (c Case) scheduleClasses() []string {
 			out = append(out, "rps_composite_with_gradual_startup")
 		}
 	}
+	if c.DiscardOverflow {
+		out = append(out, "discard_overflow_on")
+	} else {
+		out = append(out, "discard_overflow_off")
+	}
+	if b := c.Behind; b != nil {
+		out = append(out, "rps_started_in_the_past")
+		if c.DiscardOverflow {
+			out = append(out, "overdue_tokens_to_discard")
+			if c.Plain != nil && c.Plain.Format == "grpcjson" {
+				out = append(out, "overdue_tokens_to_discard_with_pooled_ammo")
+			}
+			if b.leadTokens() > b.certain() {
+				out = append(out, "overdue_tokens_to_discard_and_late_tokens_to_shoot")
+			}
+		} else {
+			out = append(out, "overdue_tokens_to_shoot_late")
+		}
+		for _, s := range b.Lead {
+			if s.Tokens > 0 {
+				out = append(out, "overdue_section_"+s.Type)
+			}
+		}
+		if len(c.Rps) > 0 {
+			out = append(out, "overdue_tokens_before_composite_rps")
+		}
+		if c.Startup != nil {
+			out = append(out, "overdue_tokens_with_gradual_startup")
+		}
+	}
+	return uniq(out)
+}
+
+func uniq(l []string) []string {
+	seen := map[string]bool{}
+	out := l[:0]
+	for _, v := range l {
+		if !seen[v] {
+			seen[v] = true
+			out = append(out, v)
+		}
+	}
 	return out
+}
+
+// genBehind draws a schedule start 2.2-4 s in the past and 1-3 bursts of overdue tokens: the first one (and mostly all)
+// due 2 s or more before the run, optionally a last one due 0.2-1.2 s before the run (late, but to be shot). The bursts
+// hold no more than half of the ammo.
+func genBehind(t *rapid.T, shots int) *Behind {
+	b := &Behind{Ms: rapid.IntRange(2200, 4000).Draw(t, "behindMs")}
+	room := max(1, shots/2)
+	bursts := rapid.IntRange(1, 2).Draw(t, "overdueBursts")
+	early := b.Ms - overdueMs // the bursts to discard fit in here
+	used := 0
+	burst := func(maxMs int) {
+		n := rapid.IntRange(1, max(1, min(room, 24))).Draw(t, "overdueTokens")
+		room -= n
+		if maxMs >= 1 && rapid.Bool().Draw(t, "overdueConst") {
+			d := rapid.IntRange(1, min(maxMs, 50)).Draw(t, "overdueMs")
+			b.Lead = append(b.Lead, Section{Type: "const", Tokens: n, DurMs: d})
+			used += d
+			return
+		}
+		b.Lead = append(b.Lead, Section{Type: "once", Tokens: n})
+	}
+	for i := 0; i < bursts && room > 0; i++ {
+		if i > 0 {
+			p := rapid.IntRange(1, max(1, (early-used)/2)).Draw(t, "overduePauseMs")
+			b.Lead = append(b.Lead, Section{Type: "const", DurMs: p})
+			used += p
+		}
+		burst((early - used) / 2)
+	}
+	if room > 0 && rapid.IntRange(0, 3).Draw(t, "lateBurst") == 0 {
+		// a burst that is due 0.2-1.2 s before the run: overdue, but not by 2 s
+		at := b.Ms - rapid.IntRange(200, 1200).Draw(t, "lateMs")
+		b.Lead = append(b.Lead, Section{Type: "const", DurMs: at - used})
+		used = at
+		burst(50)
+	}
+	return b
 }
 
 // genRps draws 2-4 short sections whose switches all happen while ammo is left: the once / const sections before
@@ -463,8 +608,18 @@ func genCase(t *rapid.T, r *vf.Run) Case {
 		c.Scen = genScen(t, true)
 	}
 	// schedules: the rps schedule is one object shared by all instances
+	behind := 4
+	if c.Kind == kindGRPC {
+		behind = 7 // the provider whose ammo objects are pooled: a discarded shot hands its object back for the next entry
+	}
+	if rapid.IntRange(0, 9).Draw(t, "rpsBehind") < behind {
+		c.Behind = genBehind(t, c.Shots)
+		c.DiscardOverflow = rapid.IntRange(0, 4).Draw(t, "discardOverflow") > 0
+	} else {
+		c.DiscardOverflow = rapid.Bool().Draw(t, "discardOverflow")
+	}
 	if rapid.IntRange(0, 9).Draw(t, "rpsComposite") < 6 {
-		c.Rps = genRps(t, c.Shots)
+		c.Rps = genRps(t, c.rest())
 		c.RpsNested = rapid.Bool().Draw(t, "rpsNested")
 	}
 	if rapid.IntRange(0, 9).Draw(t, "gradualStartup") < 4 {
@@ -543,12 +698,25 @@ func (c Case) validate() error {
 	if c.Instances < 1 || c.Shots < 1 {
 		return fmt.Errorf("instances and shots must be positive")
 	}
+	if b := c.Behind; b != nil {
+		if err := validateSections(b.Lead, "overdue"); err != nil {
+			return err
+		}
+		for _, s := range b.Lead {
+			if s.Type == "unlimited" {
+				return fmt.Errorf("overdue sections are counted ones")
+			}
+		}
+		if b.Ms < overdueMs || b.Ms > 20000 || b.leadMs() > b.Ms || b.leadTokens() < 1 || b.leadTokens() >= c.Shots {
+			return fmt.Errorf("a schedule started in the past needs 2..20 s, overdue sections that fit in and hold 1..%d tokens", c.Shots-1)
+		}
+	}
 	if len(c.Rps) > 0 {
 		if err := validateSections(c.Rps, "rps"); err != nil {
 			return err
 		}
-		if last := c.Rps[len(c.Rps)-1]; len(c.Rps) < 2 || last.Type == "unlimited" || finiteTokens(c.Rps) < c.Shots+5 {
-			return fmt.Errorf("rps sections must be >= 2, end with a counted section and hold at least %d tokens (the ammo limit ends the run)", c.Shots+5)
+		if last := c.Rps[len(c.Rps)-1]; len(c.Rps) < 2 || last.Type == "unlimited" || finiteTokens(c.Rps) < c.rest()+5 {
+			return fmt.Errorf("rps sections must be >= 2, end with a counted section and hold at least %d tokens (the ammo limit ends the run)", c.rest()+5)
 		}
 	}
 	if st := c.Startup; st != nil {
